@@ -14,7 +14,8 @@
    theorems C06_sentence_.. carry no premise about tokens at all; the one-token entries outside the alnum class are classified. *)
 Require Import Base Tables_lexer Lexer Condense Tables_spellnorm SpellDecision SpellDecisionProofs.
 Require Import Tables_f24 C06Words C06WordsProofs C06TextProofs C06AlnumProofs C06DictProofs.
-Require Import TokenInv C06Sentence C06SentenceProofs C06ShapesProofs C06SentenceDot C06SentenceDotProofs C06CondFun C06SentenceContr C06SentenceContrProofs.
+Require Import TokenInv C06Sentence C06SentenceProofs C06ShapesProofs C06SentenceDot C06SentenceDotProofs C06CondFun C06SentenceContr C06SentenceContrProofs
+  C06SentenceContrDot C06SentenceContrDotProofs C06PeriodsProofs LexerProofs.
 
 (* the decision, exactly: a word token with text w is accepted iff some entry has its id and is compatible with
    the active dialect, and some entry is spelt — up to normalisation of both sides (ebb53b3) — exactly like w or
@@ -1051,5 +1052,141 @@ Proof.
   cbv zeta. split; [vm_compute; reflexivity|]. split; [reflexivity|]. split; [reflexivity|]. split; [vm_compute; reflexivity|].
   split; [apply (sentc_doc_words ascii_uni0 ascii_letter_laws ascii_digit_law); vm_compute; reflexivity|].
   split; [unfold dict_nodup; vm_compute; repeat constructor; cbn; intuition discriminate|].
+  repeat split; vm_compute; reflexivity.
+Qed.
+
+(* ================= phase 7, step 1: contractions AND a sentence-final period (the two classes of phase 6 combined) =================
+   The text is sent_text (expand cs) ++ "." with cs a sentence with contractions (sentc_ok) whose last collapsed item, when a word,
+   is none of etc / vs / al (sentcp_ok).  The lexer yields one token per part and a Period; condense_contractions merges every
+   Word ' Word and leaves the Period (C06_condense_pattern_functional + regroup_tail); the remaining passes are the identity on
+   the merged vector (C06_passes_identity_period).  No premise about tokens. *)
+Theorem C06_sentence_contraction_period_tokens :
+  forall u : uni, letter_laws u -> digit_law u -> forall cs : list citem, sentcp_ok u cs = true ->
+  document_plain u (sentcp_text cs) = Ok (sentcp_tokens cs) /\
+  doc_words u (sentcp_text cs) = Ok (sent_words 0 (collapse cs)).
+Proof. exact (fun u L Dl cs H => conj (sentcp_document u L Dl cs H) (sentcp_doc_words u L Dl cs H)). Qed.
+Check C06_sentence_contraction_period_tokens :
+  forall u : uni, letter_laws u -> digit_law u -> forall cs : list citem, sentcp_ok u cs = true ->
+  document_plain u (sentcp_text cs) = Ok (sentcp_tokens cs) /\
+  doc_words u (sentcp_text cs) = Ok (sent_words 0 (collapse cs)).
+Print Assumptions C06_sentence_contraction_period_tokens.
+
+Theorem C06_sentence_contraction_period_unlisted_reported :
+  forall (u : uni) (lc uc : char -> list char) (is_lower is_upper : char -> bool) (fuzzy : dict -> text -> nat -> list text),
+  letter_laws u -> digit_law u -> (forall c, uc c <> []) -> fuzzy_listed fuzzy ->
+  forall D d cs pre w post, dict_nodup lc is_lower D -> sentcp_ok u cs = true -> collapse cs = pre ++ SWord w :: post ->
+  (forall e, In e D -> word_id lc is_lower (canon e) <> word_id lc is_lower w) ->
+  exists ls sg, lint_text u lc uc is_lower is_upper fuzzy D d (sentcp_text cs) = Ok ls /\
+                In (mkslint (word_at pre w) sg) ls.
+Proof. exact sentcp_unlisted_reported. Qed.
+Check C06_sentence_contraction_period_unlisted_reported :
+  forall (u : uni) (lc uc : char -> list char) (is_lower is_upper : char -> bool) (fuzzy : dict -> text -> nat -> list text),
+  letter_laws u -> digit_law u -> (forall c, uc c <> []) -> fuzzy_listed fuzzy ->
+  forall D d cs pre w post, dict_nodup lc is_lower D -> sentcp_ok u cs = true -> collapse cs = pre ++ SWord w :: post ->
+  (forall e, In e D -> word_id lc is_lower (canon e) <> word_id lc is_lower w) ->
+  exists ls sg, lint_text u lc uc is_lower is_upper fuzzy D d (sentcp_text cs) = Ok ls /\
+                In (mkslint (word_at pre w) sg) ls.
+Print Assumptions C06_sentence_contraction_period_unlisted_reported.
+
+Theorem C06_sentence_contraction_period_listed_accepted :
+  forall (u : uni) (lc uc : char -> list char) (is_lower is_upper : char -> bool) (fuzzy : dict -> text -> nat -> list text),
+  letter_laws u -> digit_law u -> lower_fix lc is_lower ->
+  forall D d e cs pre w post ls, dict_nodup lc is_lower D -> In e D -> dialect_ok (edialect e) d = true ->
+  sentcp_ok u cs = true -> collapse cs = pre ++ SWord w :: post ->
+  ( w = canon e
+    \/ (normalized (canon e) = canon e /\ lower_case lc is_lower (canon e) /\ w = capitalise uc (canon e) /\
+        Forall (case_regular lc uc) (firstn 1 (canon e)))
+    \/ (normalized (canon e) = canon e /\ lower_case lc is_lower (canon e) /\ w = upper uc (canon e) /\
+        Forall (case_regular lc uc) (canon e)) ) ->
+  lint_text u lc uc is_lower is_upper fuzzy D d (sentcp_text cs) = Ok ls ->
+  forall l, In l ls -> sl_span l <> word_at pre w.
+Proof. exact sentcp_listed_accepted. Qed.
+Check C06_sentence_contraction_period_listed_accepted :
+  forall (u : uni) (lc uc : char -> list char) (is_lower is_upper : char -> bool) (fuzzy : dict -> text -> nat -> list text),
+  letter_laws u -> digit_law u -> lower_fix lc is_lower ->
+  forall D d e cs pre w post ls, dict_nodup lc is_lower D -> In e D -> dialect_ok (edialect e) d = true ->
+  sentcp_ok u cs = true -> collapse cs = pre ++ SWord w :: post ->
+  ( w = canon e
+    \/ (normalized (canon e) = canon e /\ lower_case lc is_lower (canon e) /\ w = capitalise uc (canon e) /\
+        Forall (case_regular lc uc) (firstn 1 (canon e)))
+    \/ (normalized (canon e) = canon e /\ lower_case lc is_lower (canon e) /\ w = upper uc (canon e) /\
+        Forall (case_regular lc uc) (canon e)) ) ->
+  lint_text u lc uc is_lower is_upper fuzzy D d (sentcp_text cs) = Ok ls ->
+  forall l, In l ls -> sl_span l <> word_at pre w.
+Print Assumptions C06_sentence_contraction_period_listed_accepted.
+
+Theorem C06_sentence_contraction_period_lints_on_words :
+  forall (u : uni) (lc uc : char -> list char) (is_lower is_upper : char -> bool) (fuzzy : dict -> text -> nat -> list text),
+  letter_laws u -> digit_law u -> fuzzy_listed fuzzy ->
+  forall D d cs ls l, dict_nodup lc is_lower D -> sentcp_ok u cs = true ->
+  lint_text u lc uc is_lower is_upper fuzzy D d (sentcp_text cs) = Ok ls -> In l ls ->
+  exists pre w post, collapse cs = pre ++ SWord w :: post /\ sl_span l = word_at pre w.
+Proof. exact sentcp_lints_on_words. Qed.
+Check C06_sentence_contraction_period_lints_on_words :
+  forall (u : uni) (lc uc : char -> list char) (is_lower is_upper : char -> bool) (fuzzy : dict -> text -> nat -> list text),
+  letter_laws u -> digit_law u -> fuzzy_listed fuzzy ->
+  forall D d cs ls l, dict_nodup lc is_lower D -> sentcp_ok u cs = true ->
+  lint_text u lc uc is_lower is_upper fuzzy D d (sentcp_text cs) = Ok ls -> In l ls ->
+  exists pre w post, collapse cs = pre ++ SWord w :: post /\ sl_span l = word_at pre w.
+Print Assumptions C06_sentence_contraction_period_lints_on_words.
+
+(* non-vacuity: `don't kno, it’s.` — the lexer yields 10 tokens, Document::parse 7 (6 items + Period [15,16)); Word tokens
+   [0,5) [6,9) [11,15); with {don't, it's} exactly `kno` is reported; `I don't etc.` is outside (etc. would be merged) *)
+Example C06_nonvacuous_sentence_contraction_period :
+  let cs := [CC [100;111;110] 39 [116]; CS 1; CW [107;110;111]; CP 44; CS 1; CC [105;116] 8217 [115]]%N in
+  let D := [mkentry [100;111;110;39;116]%N None; mkentry [105;116;39;115]%N None] in
+  sentcp_ok ascii_uni0 cs = true /\ length (sentcp_tokens cs) = 7 /\
+  last (map tspan (sentcp_tokens cs)) (mkspan 0 0) = mkspan 15 16 /\
+  doc_words ascii_uni0 (sentcp_text cs) = Ok [mkspan 0 5; mkspan 6 9; mkspan 11 15] /\
+  dict_nodup ascii_lc ascii_is_lower D /\
+  lint_text ascii_uni0 ascii_lc ascii_uc ascii_is_lower ascii_is_upper no_fuzzy D American (sentcp_text cs)
+    = Ok [mkslint (mkspan 6 9) []] /\
+  sentcp_ok ascii_uni0 [CC [100;111;110] 39 [116]; CS 1; CW [101;116;99]]%N = false /\
+  sentc_ok ascii_uni0 [CC [100;111;110] 39 [116]; CS 1; CW [101;116;99]]%N = true.
+Proof.
+  cbv zeta. split; [vm_compute; reflexivity|]. split; [reflexivity|]. split; [vm_compute; reflexivity|].
+  split; [rewrite (sentcp_doc_words ascii_uni0 ascii_letter_laws ascii_digit_law) by (vm_compute; reflexivity); vm_compute; reflexivity|].
+  split; [unfold dict_nodup; vm_compute; repeat constructor; cbn; intuition discriminate|].
+  repeat split; vm_compute; reflexivity.
+Qed.
+
+(* ================= phase 7, step 2 — the PASSES half only: periods anywhere (several sentences) =================
+   For ANY token vector: a tiling with kinds Word / Space / separator punctuation / Period, no two adjacent Space tokens, every Period
+   followed by a Space token or by nothing, no Word in front of a Period one of etc / vs / al (periods_ok, decidable): all nine passes of
+   Document::parse and the dictionary loop are the identity.  Generalises C06_passes_identity_period (ONE final Period).  PARTIAL as a
+   step: that PlainEnglish::parse yields such a vector on `One two. Three four.` (the lexer half) is not proved. *)
+Theorem C06_passes_identity_periods_partial :
+  forall (src : text) (ts : list token), Tiling 0 (length src) ts ->
+  Forall (fun t => simple_kind (tkind_of t) || is_period (tkind_of t) = true) ts -> no_adj_spaces ts ->
+  periods_ok src ts = true ->
+  document_passes src ts = Ok ts.
+Proof. exact passes_identity_periods. Qed.
+Check C06_passes_identity_periods_partial :
+  forall (src : text) (ts : list token), Tiling 0 (length src) ts ->
+  Forall (fun t => simple_kind (tkind_of t) || is_period (tkind_of t) = true) ts -> no_adj_spaces ts ->
+  periods_ok src ts = true ->
+  document_passes src ts = Ok ts.
+Print Assumptions C06_passes_identity_periods_partial.
+
+(* non-vacuity: `Hi. Yo.` = Word Period Space Word Period is what the lexer model yields, satisfies every hypothesis, and the passes
+   return it unchanged; `etc. x` (Word etc in front of a Period) and `a.b` (a Period followed by a Word) do not satisfy periods_ok *)
+Example C06_nonvacuous_passes_periods :
+  let src := [72;105;46;32;89;111;46]%N in
+  let ts := [mktok (mkspan 0 2) KWord; mktok (mkspan 2 3) (KPunct PPeriod); mktok (mkspan 3 4) (KSpace 1);
+             mktok (mkspan 4 6) KWord; mktok (mkspan 6 7) (KPunct PPeriod)] in
+  plain_parse ascii_uni0 src = Ok ts /\ Tiling 0 (length src) ts /\
+  Forall (fun t => simple_kind (tkind_of t) || is_period (tkind_of t) = true) ts /\ no_adj_spaces ts /\
+  periods_ok src ts = true /\ document_passes src ts = Ok ts /\
+  periods_ok [101;116;99;46;32;120]%N [mktok (mkspan 0 3) KWord; mktok (mkspan 3 4) (KPunct PPeriod); mktok (mkspan 4 5) (KSpace 1);
+                                       mktok (mkspan 5 6) KWord] = false /\
+  periods_ok [97;46;98]%N [mktok (mkspan 0 1) KWord; mktok (mkspan 1 2) (KPunct PPeriod); mktok (mkspan 2 3) KWord] = false.
+Proof.
+  cbv zeta.
+  assert (E : plain_parse ascii_uni0 [72;105;46;32;89;111;46]%N =
+              Ok [mktok (mkspan 0 2) KWord; mktok (mkspan 2 3) (KPunct PPeriod); mktok (mkspan 3 4) (KSpace 1);
+                  mktok (mkspan 4 6) KWord; mktok (mkspan 6 7) (KPunct PPeriod)]) by (vm_compute; reflexivity).
+  split; [exact E|]. split.
+  { destruct (plain_tiling ascii_uni0 [72;105;46;32;89;111;46]%N) as (ts' & E' & T). rewrite E in E'. injection E' as <-. exact T. }
+  split; [repeat constructor|]. split; [cbn; repeat split; intros [A B]; discriminate|].
   repeat split; vm_compute; reflexivity.
 Qed.
